@@ -62,6 +62,9 @@ def build_surface():
 # Methods the scheduler knows how to call, with an argument-template tag. Any other
 # public method found by reflection is listed in the evidence as "uncalled".
 CALL_TEMPLATES = {
+    # inflate() builds a new Cube and (since the KF-2 repair) leaves its response alone, so a
+    # client may call it at any point of a cube's life and as often as it likes
+    "cube.Cube": {"inflate": "noargs"},
     "cubepart._Slice": {
         "row_order": "fmt",
         "column_order": "fmt",
@@ -81,7 +84,7 @@ CALL_TEMPLATES = {
 # Public methods that are deliberately NOT called directly (DESIGN 3.4): they are
 # constructors-in-disguise used by CubeSet, exercised through CubeSet only.
 NOT_CALLED = {
-    "cube.Cube": ["inflate", "augment_response"],
+    "cube.Cube": ["augment_response"],
 }
 
 # Properties whose value is (a sequence of) cr.cube objects: reading them first
